@@ -8,6 +8,11 @@
    agree t1 t2 v v'    : every element, key and field of v' equals the one of v at the same place
    convert_onto c t1 t2 v old : the same for an x : t2 that is not fresh; `old : dval` is what x held
                          (slices: length and whole backing array), e.g. a reply variable used again
+   enter e c t1 t2 v old : the same through entry point e — EConvertFrom (the value itself),
+                         EDecodeFrom (conversion.DecodeFrom: the bytes of v : t1 and the type t1), ECall2
+                         (bus.Proxy.Call2: t1 = type of the return signature advertised in the meta object,
+                         t2 = type of the caller's variable; read directly when both have one signature text,
+                         same_sigb, handed to DecodeFrom otherwise); old = None: x is fresh
    clean c             : the defect switches map_value_into_key and map_keeps_old_entries are off *)
 From Coq Require Import List ZArith String Permutation.
 From QV Require Import Conv ConvProofs.
@@ -61,6 +66,41 @@ Theorem C20_refuses_other_kinds_nested : forall c, clean c -> forall t1 t2 v,
   other_kind_reached t2 t1 v = true -> convert c t1 t2 v = CErr.
 Proof. exact (fun c H t1 t2 v => other_kind_refused c H t2 t1 v). Qed.
 Print Assumptions C20_refuses_other_kinds_nested.
+
+(* every entry point: for compatible types ConvertFrom, DecodeFrom and Proxy.Call2 (whether the
+   reply is read directly or converted) leave what ConvertFrom leaves in a fresh variable, whatever
+   the destination held — so the first clause holds at each of them, and the way back through any
+   converting entry point recovers the source.  The model has no state: the outcome of a call is a
+   function of its own arguments, which is what the sequences of the correspondence run are
+   compared with. *)
+Theorem C20_entry_is_conversion : forall c, clean c -> forall e t1 t2 v old, compat t1 t2 -> has_type t1 v ->
+  enter e c t1 t2 v old = convert c t1 t2 v.
+Proof. exact enter_compat. Qed.
+Print Assumptions C20_entry_is_conversion.
+
+Theorem C20_holds_at_every_entry_point : forall c, clean c -> forall e t1 t2 v old, compat t1 t2 -> has_type t1 v ->
+  exists v', enter e c t1 t2 v old = COk v' /\ has_type t2 v' /\ agree t1 t2 v v' /\
+             forall e' old', e' <> ECall2 -> enter e' c t2 t1 v' old' = COk v.
+Proof. exact enter_holds. Qed.
+Print Assumptions C20_holds_at_every_entry_point.
+
+(* a reply whose advertised signature is the caller's own is read as it is: for compatible types
+   that is the conversion *)
+Theorem C20_direct_read_is_conversion : forall c, clean c -> forall t1 t2 v,
+  same_sigb t1 t2 = true -> compat t1 t2 -> has_type t1 v -> convert c t1 t2 v = COk v.
+Proof. exact same_sig_convert. Qed.
+Print Assumptions C20_direct_read_is_conversion.
+
+(* second clause at every entry point: there is no way around the refusal *)
+Theorem C20_every_entry_refuses_other_kinds : forall e c t1 t2 v old,
+  class_of t1 <> class_of t2 -> enter e c t1 t2 v old = CErr.
+Proof. exact enter_class_mismatch. Qed.
+Print Assumptions C20_every_entry_refuses_other_kinds.
+
+Theorem C20_every_entry_refuses_other_kinds_nested : forall c, clean c -> forall e t1 t2 v,
+  other_kind_reached t2 t1 v = true -> (e = ECall2 -> same_sigb t1 t2 = false) -> enter e c t1 t2 v None = CErr.
+Proof. exact enter_other_kind_refused. Qed.
+Print Assumptions C20_every_entry_refuses_other_kinds_nested.
 
 (* the pinned convertMap (value converted into the key variable, element never filled) breaks
    the first clause: map[int8]int8{1:5} becomes map[int16]int16{5:0} ... *)
